@@ -4,6 +4,14 @@ STATIC_NOTE = ('Trusted base: nightly rustc front-end (HIR/typeck/MIR) as the me
                'necessary conditions of the behavioural property — not the algebra/numerics.')
 
 CLAIMED = {
+    'C01': dict(
+        text='Static Fiat–Shamir schedule duality: the full transcript schedule of create_proof and of prepare (with every argument helper and the KZG '
+             'multi-opening inlined) is extracted from HIR as a tree of operations under symbolic loop domains inferred by shape analysis, normalised and '
+             'compared: prover = dual(verifier) = golden protocol schedule. Holds for every number of proofs / instance-column split / phases / lookups / '
+             'permutation sets / trashcans at once — exactly the configurations the one-proof suite never runs. Necessary condition of completeness; '
+             'numerical agreement of commitments/evaluations is not decided.',
+        note=STATIC_NOTE + ' Golden schedule and the four domain alias tables are in analysis/tables.py.',
+        technique='static analysis: HIR effect-schedule extraction + shape inference + normal-form comparison (sibling duality)'),
     'C03': dict(
         text='Static rules (must-call, who-may-call, CHECKED decoders, field COVER, dominance guards) over the resolved program: '
              'every decoded proof element is absorbed, decoders are the checked ones, the vk identity covers every part of the key, '
